@@ -29,6 +29,9 @@ class Run:
         self.deadline = self.t0 + (float(os.environ.get("VERIF_DEADLINE_S", "0")) or (1500 if tier == "quick" else 7200))
         self.cov = {"states": 0, "transitions": 0, "traces_validated_against_impl": 0, "evaluations": 0,
                     "distinct_nontrivial": 0, "samples": [], "exhaustive": True, "phases": {}, "builds": {}}
+        global CASE_TIMEOUT
+        if not os.environ.get("VERIF_CASE_TIMEOUT"):
+            CASE_TIMEOUT = 600.0 if tier == "quick" else 1500.0     # a case normally takes seconds; the margin is for a loaded machine
         self.violations = []
         self.known_hits = []
         self.assumptions = []
